@@ -209,6 +209,11 @@ def check_simplex(run, cx, cfg, tier):
             if e['kind'] == 'assert' and e['msg'] == 'BoundsCheck':
                 idx = e['ops'][1]
                 okidx = idx[0] == 'cast' and idx[3] == 'usize' and idx[2][0] == 'cast' and idx[2][3] == 'u8'
+                # ... or through a mask with 0xFF (the same residue for a two's-complement integer)
+                inner = idx[2] if idx[0] == 'cast' and idx[3] == 'usize' else idx
+                if not okidx and inner[0] == 'op' and inner[1] == 'BitAnd' and (inner[3] in (('int', 255, 'i64'), ('int', 255, 'usize'), ('int', 255, 'i32'), ('int', 255, 'u64'))
+                                                                                or inner[2][0] == 'int' and inner[2][1] == 255):
+                    okidx = True
                 ln = e['ops'][0]
                 if not okidx or not (ln[0] == 'int' and ln[1] == 256):
                     bad = 'a permutation-table index is not reduced through `as u8` (index %s, table length %s)' % (short(idx)[:80], short(ln))
